@@ -126,8 +126,9 @@ func genVal(t *rapid.T, p *Profile) []byte {
 		// rarely: a value just above 1 MiB (or 64 KiB) - sizes at which an
 		// implementation might start to split or cap reads and writes
 		n := 1<<20 + uni(t, 3000, "giantlen")
-		if uni(t, 3, "giantclass") == 0 {
-			n = 1<<16 + uni(t, 300, "giantlen64k")
+		if uni(t, 3, "giantclass") != 0 {
+			// around 8, 16, 32 and 64 KiB (from 2 bytes below to 300 above)
+			n = 1<<(13+uni(t, 4, "giantpow")) - 2 + uni(t, 302, "giantdelta")
 		}
 		b := make([]byte, n)
 		f := rapid.Byte().Draw(t, "giantfill")
@@ -210,6 +211,9 @@ func (p *Profile) genOpKind(t *rapid.T, kind string, gs *genState, depth int) Op
 		coll()
 		o.Key = genKey(t, p)
 		o.Val = genVal(t, p)
+		if kind == OpSetR && uni(t, 4, "setany") == 0 {
+			o.N = 1 // through SetAny
+		}
 		if p.Hostile && kind == OpSet && uni(t, 100, "rthostile") < 4 {
 			o.Flag = 1 + uni(t, 4, "rthostilekind") // run-time copy / fragment of the file's own last root record
 		}
@@ -229,6 +233,9 @@ func (p *Profile) genOpKind(t *rapid.T, kind string, gs *genState, depth int) Op
 			}
 		}
 	case OpDel, OpGet, OpExist:
+		if kind == OpDel && uni(t, 12, "delany") == 0 {
+			o.N = 1 // through DeleteAny
+		}
 		coll()
 		handleIfRead(kind, handle)
 		o.Key = genKey(t, p)
